@@ -451,7 +451,7 @@ impl Scheduler {
         }));
 
         // Add our condition variable to the list of wakers scheduled for the queue
-        queue.core.lock().unwrap().wake_blocked.push(Arc::downgrade(&wakeup));
+        queue.core.lock().unwrap().wake_blocked.push((Arc::downgrade(&wakeup), Arc::downgrade(&ready)));
         
         // Unsafe job with unbounded lifetime is needed because stuff on the queue normally needs a static lifetime
         let need_reschedule = {
@@ -470,29 +470,28 @@ impl Scheduler {
             let mut ready   = ready_mutex.lock().expect("Background job ready lock");
             
             while !*ready {
-                // Use the condition variable to wait for the wakeup
-                ready = wakeup.wait(ready).expect("Background job cvar wait");
-
-                // If we're woken up and the queue is idle, drain it until the result is available
-                if !*ready {
+                // If the queue is not owned by anything, drain it until the result is available. The 'ready' lock is held
+                // while checking, so whatever releases the queue later on can't notify us before we're waiting
+                if self.core.claim_pending_queue(queue) {
                     // Need to drop the lock so we can safely run the queue
                     mem::drop(ready);
 
-                    if self.core.claim_pending_queue(queue) {
-                        // We're now running the queue: try to run jobs on it until it's ready
-                        while !*ready_mutex.lock().unwrap() {
-                            match JobQueue::run_one_job_now(queue) {
-                                JobStatus::Finished | JobStatus::NoJobsWaiting => { },
-                            }
+                    // We're now running the queue: try to run jobs on it until it's ready
+                    while !*ready_mutex.lock().unwrap() {
+                        match JobQueue::run_one_job_now(queue) {
+                            JobStatus::Finished | JobStatus::NoJobsWaiting => { },
                         }
-
-                        // Reschedule the queue once we're done
-                        queue.core.lock().unwrap().state = QueueState::Idle;
-                        self.reschedule_queue(queue);
                     }
+
+                    // Reschedule the queue once we're done
+                    queue.core.lock().unwrap().state = QueueState::Idle;
+                    self.reschedule_queue(queue);
 
                     // Re-acquire the lock
                     ready = ready_mutex.lock().expect("Background job result lock");
+                } else {
+                    // Use the condition variable to wait for the wakeup
+                    ready = wakeup.wait(ready).expect("Background job cvar wait");
                 }
             }
 
@@ -503,7 +502,7 @@ impl Scheduler {
 
         // Clean up the wakers from the queue (should at least free our one)
         mem::drop(wakeup);
-        queue.core.lock().unwrap().wake_blocked.retain(|waker| waker.strong_count() > 0);
+        queue.core.lock().unwrap().wake_blocked.retain(|(waker, _)| waker.strong_count() > 0);
 
         // Return the result
         final_result
